@@ -428,6 +428,16 @@ func init() {
 		n := e.havocVal(st, "copied", types.Typ[types.Int64])
 		errv := e.havocVal(st, "copyerr", c.Signature().Results().At(1).Type())
 		e.sc.assume(sx("<=", "0", n.T), "io.Copy: written >= 0")
+		// io.Copy(buf, bytes.NewReader(b)) with the reader used nowhere else: exactly len(b) bytes, no error
+		if mi, ok := c.Args[1].(*ssa.MakeInterface); ok {
+			if call, ok := mi.X.(*ssa.Call); ok && realReferrers(call) == 1 {
+				if f := call.Common().StaticCallee(); f != nil && f.String() == "bytes.NewReader" {
+					if b := fr.vals[call.Common().Args[0]]; b != nil {
+						e.sc.assume(implies(isBufWriter(e, args[0]), and(eq(n.T, sx("s_len", b.T)), eq(errv.T, "0"))), "io.Copy from a fresh bytes.Reader into a bytes.Buffer copies everything")
+					}
+				}
+			}
+		}
 		b := bufOfWriter(e, args[0])
 		cur := e.get(st, BL, "(Array Int Int)")
 		e.set(st, BL, "(Array Int Int)", ite(isBufWriter(e, args[0]), sto(cur, b, sx("+", sel(cur, b), n.T)), cur), "io.Copy into buffer")
@@ -459,6 +469,36 @@ func init() {
 		b := bufOfWriter(e, wv)
 		cur := e.get(st, "BL", "(Array Int Int)")
 		e.set(st, "BL", "(Array Int Int)", ite(isBufWriter(e, wv), sto(cur, b, sx("+", sel(cur, b), n.T)), cur), "Encode into buffer")
+		return errv
+	})
+
+	reg([]string{"encoding/binary.Write"}, []string{"BL"}, func(e *Eng, fr *Frame, c *ssa.CallCommon, args []*Val, st *State, g string, pos token.Pos) *Val {
+		size := -1
+		if mi, ok := c.Args[2].(*ssa.MakeInterface); ok {
+			if b, ok := types.Unalias(mi.X.Type()).Underlying().(*types.Basic); ok {
+				switch b.Kind() {
+				case types.Uint8, types.Int8, types.Bool:
+					size = 1
+				case types.Uint16, types.Int16:
+					size = 2
+				case types.Uint32, types.Int32, types.Float32:
+					size = 4
+				case types.Uint64, types.Int64, types.Float64:
+					size = 8
+				}
+			}
+		}
+		errv := e.havocVal(st, "bwerr", c.Signature().Results().At(0).Type())
+		if size > 0 {
+			b := bufOfWriter(e, args[0])
+			cur := e.get(st, "BL", "(Array Int Int)")
+			// writing to a bytes.Buffer cannot fail
+			e.sc.assume(implies(isBufWriter(e, args[0]), eq(errv.T, "0")), "binary.Write of a fixed-size value into a bytes.Buffer succeeds")
+			e.set(st, "BL", "(Array Int Int)", ite(isBufWriter(e, args[0]), sto(cur, b, sx("+", sel(cur, b), fmt.Sprint(size))), cur), "binary.Write into buffer")
+		} else {
+			e.note("binary.Write of a value whose size is not static: buffer length unknown afterwards")
+			e.havocReg(st, "BL")
+		}
 		return errv
 	})
 
@@ -604,4 +644,17 @@ func (v *Val) sortNameRaw() string {
 		}
 	}
 	return "Int"
+}
+
+// realReferrers counts the instructions using v, leaving debug references aside.
+func realReferrers(v ssa.Value) int {
+	n := 0
+	if rs := v.Referrers(); rs != nil {
+		for _, r := range *rs {
+			if _, ok := r.(*ssa.DebugRef); !ok {
+				n++
+			}
+		}
+	}
+	return n
 }
